@@ -350,7 +350,13 @@ func (d *Decoder) scan(data []byte, atEOF bool) (advance int, token []byte, err 
 	}
 
 	// Look for new blocks
-	switch l := startsBlockQuote(data); {
+	l, more := startsBlockQuote(data, atEOF)
+	if more {
+		// The block quote prefix reaches the end of the buffered data; its length
+		// must not depend on how the input was split across reads.
+		return 0, nil, nil
+	}
+	switch {
 	case l > 0 && !d.quoteStarted:
 		// If we haven't yet consumed our block quote start token, do so.
 		d.mask |= BlockQuote | BlockQuoteStart
@@ -562,20 +568,26 @@ func (d *Decoder) scanSpan(data []byte, atEOF bool) (advance int, token []byte, 
 
 // startsBlockQuote looks for a block quote start token at the beginning of data
 // and returns its length (or 0 if one was not found).
-func startsBlockQuote(data []byte) int {
+// If the token's trailing whitespace runs up to the end of data (or data ends
+// in what may be a partial multi-byte space) and more data may follow, more is
+// true and the length is not yet known.
+func startsBlockQuote(data []byte, atEOF bool) (l int, more bool) {
 	if len(data) == 0 || data[0] != '>' {
-		return 0
+		return 0, false
 	}
 
 	data = data[1:]
-	l := 1
+	l = 1
 	for len(data) > 0 {
 		r, size := utf8.DecodeRune(data)
 		if !isSpace(r) {
-			return l
+			if !atEOF && !utf8.FullRune(data) {
+				return 0, true
+			}
+			return l, false
 		}
 		l += size
 		data = data[size:]
 	}
-	return l
+	return l, !atEOF
 }
